@@ -55,8 +55,7 @@ void Normalizer::Declarative(SyntaxTree::Node& root) {
     return;
   }
   const auto newName = ProcessTupleDeclaration(root(0));
-  SubstituteTupleVariables(root(1), newName);
-  SubstituteTupleVariables(root(2), newName);
+  SubstituteTupleVariables(root(2), newName); // Note: declared variables are not visible in their own domain
 }
 
 void Normalizer::Recursion(SyntaxTree::Node& root) {
@@ -81,12 +80,11 @@ void Normalizer::Imperative(SyntaxTree::Node& root) {
       continue;
     }
     const auto newName = ProcessTupleDeclaration(declRoot(0));
-    for (Index child2 = 0; child2 < root.ChildrenCount(); ++child2) {
-      if (child2 != child) {
-        SubstituteTupleVariables(root(child2), newName);
-      }
+    // Note: declared variables are visible only in the following blocks and in the value expression
+    for (Index child2 = static_cast<Index>(child + 1); child2 < root.ChildrenCount(); ++child2) {
+      SubstituteTupleVariables(root(child2), newName);
     }
-    SubstituteTupleVariables(root, newName);
+    SubstituteTupleVariable(root, 0, newName);
   }
 }
 
@@ -147,18 +145,22 @@ std::string Normalizer::ProcessTupleDeclaration(SyntaxTree::Node& root) {
 
 void Normalizer::SubstituteTupleVariables(SyntaxTree::Node& target, const std::string& newName) {
   for (Index child = 0; child < target.ChildrenCount(); ++child) {
-    if (target(child).token.id != TokenID::ID_LOCAL) {
-      SubstituteTupleVariables(target(child), newName);
-    } else {
-      const auto& localName = target(child).token.data.ToText();
-      if (tupleSubstitutes.contains(localName)) {
-        const auto& indexes = tupleSubstitutes.at(localName);
-        target(child).token.data = TokenData{ newName };
-        for (const auto prIndex : indexes) {
-          target.ExtendChild(child, TokenID::SMALLPR);
-          target(child).token.pos = target(child)(0).token.pos;
-          target(child).token.data = TokenData{ std::vector<Index>{ prIndex } };
-        }
+    SubstituteTupleVariable(target, child, newName);
+  }
+}
+
+void Normalizer::SubstituteTupleVariable(SyntaxTree::Node& target, const Index child, const std::string& newName) {
+  if (target(child).token.id != TokenID::ID_LOCAL) {
+    SubstituteTupleVariables(target(child), newName);
+  } else {
+    const auto& localName = target(child).token.data.ToText();
+    if (tupleSubstitutes.contains(localName)) {
+      const auto& indexes = tupleSubstitutes.at(localName);
+      target(child).token.data = TokenData{ newName };
+      for (const auto prIndex : indexes) {
+        target.ExtendChild(child, TokenID::SMALLPR);
+        target(child).token.pos = target(child)(0).token.pos;
+        target(child).token.data = TokenData{ std::vector<Index>{ prIndex } };
       }
     }
   }
